@@ -30,9 +30,31 @@ class FunctionReport:
         self.inputs = None          # symbolic inputs of the last run (for concretisation)
 
 
+def _region(src, c):
+    """'@region <anchor>': the module-level statements of a script from the first statement whose source text starts
+    with <anchor> to the end of the file, wrapped in a synthetic function whose parameters are the names the contract
+    gives shapes for (the free names of the region).  Nothing inside the region is dropped or rewritten."""
+    anchor = c.func[len('@region '):]
+    body = src.tree.body
+    for i, st in enumerate(body):
+        seg = ast.get_source_segment(src.text, st) or ''
+        if seg.startswith(anchor):
+            stmts = body[i:]
+            fn = ast.FunctionDef(
+                name='__region__',
+                args=ast.arguments(posonlyargs=[], args=[ast.arg(arg=p) for p in c.params], vararg=None,
+                                   kwonlyargs=[], kw_defaults=[], kwarg=None, defaults=[]),
+                body=stmts, decorator_list=[], returns=None, type_comment=None)
+            fn.lineno, fn.col_offset = st.lineno, 0
+            fn.end_lineno, fn.end_col_offset = stmts[-1].end_lineno, stmts[-1].end_col_offset
+            fn._region_text = '\n'.join(ast.get_source_segment(src.text, x) or '' for x in stmts)
+            return fn
+    return None
+
+
 def locate(world, c):
     src = SourceFile.get(c.file)
-    node = src.find(c.func)
+    node = _region(src, c) if c.func.startswith('@region ') else src.find(c.func)
     if node is None:
         raise Unsupported('function %s not found in %s' % (c.func, c.file))
     return src, node
@@ -46,7 +68,9 @@ def verify_contract(world, c, cache=None, max_paths=4000, limits=None):
     except (Unsupported, OSError) as e:
         rep.unsupported.append(str(e))
         return rep
-    rep.src_hash = src.hash_of(node)
+    import hashlib
+    rep.src_hash = (hashlib.sha256(node._region_text.encode()).hexdigest()[:16] if hasattr(node, '_region_text')
+                    else src.hash_of(node))
     rep.line = node.lineno
     modns = world.module_for_file(c.file)
     cache = cache or SolverCache()
